@@ -1,7 +1,7 @@
 (* C01: the element semantics (Model/Core.v `step`, run by `parse`) agrees with the reference PEG reading
    (Model/Peg.v) on every grammar of `in_class`, every input, every location, every fuel. *)
 From Coq Require Import List ZArith NArith Bool Arith Lia.
-From PP Require Import Model.Str Model.Results Model.Prog Model.Core Model.Peg.
+From PP Require Import Model.Str Model.Results Model.Prog Model.Core Model.Peg Proofs.EachFacts Proofs.EachPeg.
 Import ListNotations.
 
 (* ------------------------------------------------------------------------------------------- *)
@@ -108,6 +108,18 @@ Qed.
 (* ------------------------------------------------------------------------------------------- *)
 (* the equivalence                                                                              *)
 (* ------------------------------------------------------------------------------------------- *)
+(* what Each's initExprGroups derives from operands of the class stays in the class *)
+Lemma in_class_rep_operand G a i z b ne : in_class G (Rep a i z b ne) = true ->
+  in_class G (snd (rep_operand (Rep a i z b ne) b)) = true.
+Proof.
+  intros H. simpl in H. destruct ne; [discriminate H|].
+  apply andb_prop in H as [H Hb]. apply andb_prop in H as [Hp _].
+  unfold rep_operand. cbn [attrs_of]. unfold plain_attrs in Hp.
+  destruct (acts a); [|discriminate]. destruct (rsname a); [discriminate|]. exact Hb.
+Qed.
+Lemma in_class_opt_body G a i dflt b : in_class G (Enh a i (EOpt dflt) b) = true -> in_class G b = true.
+Proof. intros H. simpl in H. apply andb_prop in H as [H _]. apply andb_prop in H as [_ H]. exact H. Qed.
+
 Section Equiv.
 Variable G : env.
 Variable s : str.
@@ -141,6 +153,7 @@ Proof.
     try discriminate H.
   - apply andb_prop in H as [H _]. apply andb_prop in H as [H1 H2]. destruct i; [auto|discriminate].
   - destruct k; try discriminate H.
+    + repeat (apply andb_prop in H as [H ?]). destruct i; [auto|discriminate].
     + repeat (apply andb_prop in H as [H ?]). destruct i; [auto|discriminate].
     + repeat (apply andb_prop in H as [H ?]). destruct i; [auto|discriminate].
   - repeat (apply andb_prop in H as [H ?]). destruct i; [auto|discriminate].
@@ -338,6 +351,17 @@ Proof.
       pose proof He as He'. simpl in He. apply andb_prop in He as [He Hall].
       cbn [impl]. apply mf_go_ok; [exact He'| |exact Hall|exact I].
       intros l0 acc. rewrite HK. reflexivity.
+    + (* Each *)
+      simpl in He. apply andb_prop in He as [He Hall]. apply andb_prop in He as [He Hnull].
+      apply andb_prop in He as [Hp Hi]. destruct i; [|discriminate Hi].
+      cbn [impl]. unfold good.
+      apply each_impl_ok with (Q := fun c => in_class G c = true).
+      * intros c Hc l0 d0. exact (proj1 (IH c Hc l0 d0)).
+      * intros a0 i0 z b ne. apply in_class_rep_operand.
+      * intros a0 i0 dflt b. apply in_class_opt_body.
+      * exact Hp.
+      * apply Forall_forall. intros c Hin. eapply all_in; eassumption.
+      * destruct (each_opt2 (each_zip es info)); [reflexivity|discriminate Hnull].
   - (* enhancements *)
     pose proof He as He'. simpl in He. apply andb_prop in He as [He Hk]. apply andb_prop in He as [He Hc].
     destruct k; try discriminate Hk; cbn [impl]; unfold call, can_parse_next, try_parse, call; cbn [run].
@@ -455,3 +479,19 @@ Proof.
   - split; [|intros Hs]; cbn [parse]; apply level_step; try assumption; congruence.
 Qed.
 End Equiv.
+
+(* Each over operands of the class, spelled out (a special case of peg_equiv: such an Each node is itself in the class) *)
+Theorem each_reading_in_class : forall (G : env) (s : str), env_in_class G = true ->
+  forall f a info es, plain_attrs a = true -> forallb (in_class G) es = true ->
+  each_opt2 (each_zip es info) = [] ->
+  forall loc0 d pre,
+  proj (parse (step G) (S f) (mkargs (Nary a [] (NEach info) es) s loc0 d pre))
+  = Some (peg_each s (peg G s f) es info (if pre then eff s (Nary a [] (NEach info) es) loc0 else loc0)).
+Proof.
+  intros G s HG f a info es Hp Hes Hnull loc0 d pre. cbn [parse].
+  apply (each_reading G s (parse (step G) f) (peg G s f) (fun c => in_class G c = true)); try assumption.
+  - intros c Hc loc d0. exact (proj1 (peg_equiv G s HG f c Hc loc d0)).
+  - intros a0 i z b ne. apply in_class_rep_operand.
+  - intros a0 i dflt b. apply in_class_opt_body.
+  - apply Forall_forall. rewrite forallb_forall in Hes. exact Hes.
+Qed.
